@@ -29,6 +29,10 @@ def gen1(seed, index):
         a, b = b, a
     if rng.random() < 0.15:
         g.anonymise(t)          # leaves without a name: equal durations make distinct siblings ==
+    if rng.random() < 0.03:
+        # argument checks on containers that have nothing below them to delegate to: leafless simultaneities / sequences
+        t = rng.choice([["P", 0, 0], ["P", 1, 0, ["P", 0, 0]], ["S", 0, 0], ["P", 0, 2, ["P", 0, 0], ["S", 2, 0]], ["S", 0, 0, ["P", 0, 0]]])
+        a, b = rng.choice([(-1, 2), (-G.unit, G.unit), (-1, -1), (0, G.unit), (1, 1)])
     return ["op", t, ["cut_off", a, b]]
 
 
